@@ -74,10 +74,15 @@ func Recover(fn func()) (o Outcome) {
 func WaitGoroutines(base int, timeout time.Duration) int {
 	deadline := time.Now().Add(timeout)
 	sleep := 20 * time.Microsecond
-	for {
+	for i := 0; ; i++ {
 		n := runtime.NumGoroutine()
 		if n <= base || time.Now().After(deadline) {
 			return n
+		}
+		if i < 3000 { // timer sleeps are coarse (~1 ms); yield first, the wait is usually microseconds
+			runtime.Gosched()
+
+			continue
 		}
 		time.Sleep(sleep)
 		if sleep < 2*time.Millisecond {
@@ -90,12 +95,17 @@ func WaitGoroutines(base int, timeout time.Duration) int {
 func Eventually(timeout time.Duration, cond func() bool) bool {
 	deadline := time.Now().Add(timeout)
 	sleep := 20 * time.Microsecond
-	for {
+	for i := 0; ; i++ {
 		if cond() {
 			return true
 		}
 		if time.Now().After(deadline) {
 			return false
+		}
+		if i < 3000 {
+			runtime.Gosched()
+
+			continue
 		}
 		time.Sleep(sleep)
 		if sleep < 2*time.Millisecond {
@@ -129,4 +139,21 @@ func WriteReplay(test string, data []byte) string {
 	fmt.Printf("VERIF-REPLAY %s\n", path)
 
 	return path
+}
+
+// StableGoroutines yields until runtime.NumGoroutine() has not changed for a while (helper goroutines of
+// earlier guarded calls have exited) and returns the count: the baseline for quiescence waits.
+func StableGoroutines() int {
+	last, same := runtime.NumGoroutine(), 0
+	for i := 0; i < 100000 && same < 200; i++ {
+		runtime.Gosched()
+		n := runtime.NumGoroutine()
+		if n == last {
+			same++
+		} else {
+			last, same = n, 0
+		}
+	}
+
+	return last
 }
